@@ -11,7 +11,7 @@ CHECKS = {
          "Thousands of generated update/build histories (7 metrics, pools 1-16, small ids colliding with node ids, split_after/n_trees changing) are executed against the real crate; after every build the raw LMDB dump is decoded by an independent reference codec and walked: every tree reaches exactly the model's items once, no dangling/shared/orphan node. Sampling, not proof; quick = 6 400 histories (incl. 300 of 250-800 items with memory-limited builds, 96 in which 4097-9000 ids arrive in one round and 8 with 16 385-24 000 items), thorough = 125 000 + 160 large ones (2-5k items, 130 dims) + 1 500 bulk ones, both build profiles, plus 10 min libFuzzer+ASan over the same interpreter.",
          "Trusts LMDB/heed; x86-64 only; most quick histories hold <= ~1000 items, 96 hold up to ~9000, 8 up to 24 000.", "4 C01"),
  "C02": ("exploration", "property-based testing with an f64 brute-force k-NN oracle",
-         "Unlimited-budget queries on generated built indexes are compared with brute force over the model (length, ids, distances within a rigorous rounding bound, order, nothing nearer omitted).", "Tie order unconstrained; accuracy clauses skipped outside the stated float domain.", "4 C02"),
+         "Unlimited-budget queries on generated built indexes are compared with brute force over the model (length, ids, distances within a rigorous rounding bound, order, nothing nearer omitted); budget-limited queries are interleaved on the same thread so that no exact query depends on what was searched before.", "Tie order unconstrained; accuracy clauses skipped outside the stated float domain.", "4 C02"),
  "C03": ("exploration", "property-based + metamorphic testing over a query-parameter lattice",
          "Sampled lattice of count/search_k/oversampling/candidates per built index: well-formedness vs the model, by_item==by_vector, monotone budget chains, filtered exhaustive == filtered brute force, unset defaults == explicit defaults, overflowing counts.", "Metamorphic relations rely on the traversal being deterministic for a fixed snapshot (it is: heap order on (priority,node id)).", "4 C03"),
  "C04": ("exploration", "property-based testing; f64 margin oracle over the decoded dump + search_k=1 self lookup",
@@ -95,7 +95,7 @@ def main():
                      "kind_free_text": "Rust binary `verif`: proptest-driven generators (TestRunner, fixed seeds from VERIF_SEED, 16 workers), history/script interpreters over the real crate, independent oracles (reference codec, forest walker, f64 brute force, models), shrinking to replay files"}],
         "checks": checks,
         "not_applicable": na,
-        "notes": "All checks: exit 0 held / 1 VIOLATION line / 2 inconclusive (build failure, watchdog, harness problem). Ten genuine defects of the pinned tree (D1-D10) were found by these checks and repaired by fix: commits in /repo; they are listed as fixed in known_findings.json, none is open. seeded/SUMMARY.md lists 375 independently written breaking changes and the checks that catch them (370; the other 5 lie outside what the properties state, DESIGN 7.1).",
+        "notes": "All checks: exit 0 held / 1 VIOLATION line / 2 inconclusive (build failure, watchdog, harness problem). Ten genuine defects of the pinned tree (D1-D10) were found by these checks and repaired by fix: commits in /repo; they are listed as fixed in known_findings.json, none is open. seeded/SUMMARY.md lists 379 independently written breaking changes and the checks that catch them (374; the other 5 lie outside what the properties state, DESIGN 7.1).",
     }
     json.dump(m, open(os.path.join(ROOT, "MANIFEST.json"), "w"), indent=1)
     print("checks:", len(checks), "not_applicable:", len(na))
